@@ -264,7 +264,59 @@ fn fit(tab: &MTable, ci: usize, v: Val, alt: &str) -> Val {
 
 impl Model {
     pub fn new(tables: &[TableSpec], big: bool) -> Model {
-        Model { tables: tables.iter().map(MTable::from_spec).collect(), txn: None, name_seq: 0, big }
+        let mut ts: Vec<MTable> = tables.iter().map(MTable::from_spec).collect();
+        // FOREIGN KEYs reference the first table's integer primary key `id`; drop the
+        // declaration where that does not exist (or on the first table itself)
+        let parent_ok = ts.first().map(|t| t.cols.iter().any(|c| c.pk && c.ty == Ty::Int && !c.auto_inc)).unwrap_or(false);
+        for (i, t) in ts.iter_mut().enumerate() {
+            for c in t.cols.iter_mut() {
+                if c.fk.is_some() && (i == 0 || !parent_ok || c.pk) {
+                    c.fk = None;
+                }
+            }
+        }
+        Model { tables: ts, txn: None, name_seq: 0, big }
+    }
+
+    fn parent_keys(&self) -> Vec<i64> {
+        let Some(p) = self.tables.first() else { return vec![] };
+        let Some(ci) = p.cols.iter().position(|c| c.pk) else { return vec![] };
+        p.rows.iter().filter_map(|r| if let Val::Int(i) = &r[ci] { Some(*i) } else { None }).collect()
+    }
+
+    /// CHECK and FOREIGN KEY verdict for a row written into table `ti`
+    fn check_row_semantic(&self, ti: usize, row: &Row, tags: &mut Vec<&'static str>) -> Result<(), &'static str> {
+        let tab = &self.tables[ti];
+        for (i, c) in tab.cols.iter().enumerate() {
+            if let Some(ch) = &c.check {
+                tags.push("check_column_written");
+                if ch.has_eq_ne() {
+                    tags.push("check_with_eq_or_ne");
+                }
+                if ch.has_or() {
+                    tags.push("check_with_or");
+                }
+                if c.ty == Ty::Text {
+                    tags.push("check_on_text_column");
+                }
+                if ch.eval(c.ty, &row[i]) == Some(false) {
+                    return Err("check");
+                }
+            }
+            if c.fk.is_some() {
+                tags.push("fk_child_written");
+                if let Val::Int(v) = &row[i] {
+                    if !self.parent_keys().contains(v) {
+                        return Err("foreign_key");
+                    }
+                }
+            }
+        }
+        Ok(())
+    }
+
+    fn has_fk(&self) -> bool {
+        self.tables.iter().any(|t| t.cols.iter().any(|c| c.fk.is_some()))
     }
 
     pub fn create_sql(t: &MTable) -> Vec<String> {
@@ -285,6 +337,17 @@ impl Model {
             }
             if let Some(d) = c.default {
                 s.push_str(&format!(" DEFAULT {}", default_val(c.ty, d, neg_ok()).sql()));
+            }
+            if let Some(ch) = &c.check {
+                s.push_str(&format!(" CHECK ({})", ch.sql(&c.name, c.ty)));
+            }
+            if let Some(a) = c.fk {
+                s.push_str(" REFERENCES t0(id)");
+                match a {
+                    FkAction::NoAction => {}
+                    FkAction::Restrict => s.push_str(" ON DELETE RESTRICT"),
+                    FkAction::Cascade => s.push_str(" ON DELETE CASCADE"),
+                }
             }
             cols.push(s);
         }
@@ -501,8 +564,9 @@ impl Model {
                 let mut err: Option<&'static str> = None;
                 let mut fail_at = 0usize;
                 let mut all = tab.rows.clone();
+                let mut sem_tags: Vec<&'static str> = Vec::new();
                 for (k, row) in new_rows.iter().enumerate() {
-                    if let Err(e) = Self::check_row_local(tab, row) {
+                    if let Err(e) = Self::check_row_local(tab, row).and_then(|_| self.check_row_semantic(ti, row, &mut sem_tags)) {
                         err = Some(e);
                         fail_at = k;
                         break;
@@ -513,6 +577,10 @@ impl Model {
                         fail_at = k;
                         break;
                     }
+                }
+                r.tags.extend(sem_tags);
+                if ti == 0 && self.has_fk() && new_rows.len() > 1 {
+                    r.tags.push("fk_parent_multi_row_insert");
                 }
                 if let Some(e) = err {
                     r.expect = Expect::Err(e);
@@ -658,15 +726,44 @@ impl Model {
                 // verdict: end-of-statement semantics; statements whose verdict differs between
                 // end-of-statement and row-at-a-time checking are not generated (ambiguous)
                 let mut final_err: Option<&'static str> = None;
+                let mut sem_tags: Vec<&'static str> = Vec::new();
                 for i in &touched {
-                    if let Err(e) = Self::check_row_local(tab, &rows[*i]) {
+                    if let Err(e) = Self::check_row_local(tab, &rows[*i]).and_then(|_| self.check_row_semantic(ti, &rows[*i], &mut sem_tags)) {
                         final_err = Some(e);
+                    }
+                }
+                if sem_tags.contains(&"fk_child_written") {
+                    r.tags.push("fk_child_updated");
+                }
+                r.tags.extend(sem_tags);
+                // the parent key of a referenced row may not change (ON UPDATE NO ACTION)
+                if ti == 0 && self.has_fk() {
+                    if let Some(pk) = tab.cols.iter().position(|c| c.pk) {
+                        let referenced: Vec<i64> = self
+                            .tables
+                            .iter()
+                            .skip(1)
+                            .flat_map(|t| {
+                                t.cols.iter().enumerate().filter(|(_, c)| c.fk.is_some()).flat_map(move |(ci, _)| t.rows.iter().filter_map(move |r| if let Val::Int(v) = &r[ci] { Some(*v) } else { None })).collect::<Vec<_>>()
+                            })
+                            .collect();
+                        for i in &touched {
+                            if tab.rows[*i][pk] != rows[*i][pk] {
+                                r.tags.push("update_parent_key_with_fk_children");
+                                if let Val::Int(old) = &tab.rows[*i][pk] {
+                                    if referenced.contains(old) && final_err.is_none() {
+                                        final_err = Some("fk_parent_update");
+                                    }
+                                }
+                            }
+                        }
                     }
                 }
                 if final_err.is_none() && Self::violates_unique(tab, &rows) {
                     final_err = Some("unique");
                 }
                 // row-at-a-time simulation
+                #[allow(unused_assignments)]
                 let mut seq_err = false;
                 {
                     let mut cur = tab.rows.clone();
@@ -677,6 +774,9 @@ impl Model {
                             break;
                         }
                     }
+                }
+                if matches!(final_err, Some("check") | Some("foreign_key") | Some("fk_parent_update")) {
+                    seq_err = true;
                 }
                 if seq_err != final_err.is_some() {
                     return None; // ambiguous between checking disciplines
@@ -714,6 +814,39 @@ impl Model {
                     }
                 }
                 r.rows_touched = gone.len();
+                let mut fk_err = false;
+                if ti == 0 && self.has_fk() && !gone.is_empty() {
+                    if let Some(pk) = tab.cols.iter().position(|c| c.pk) {
+                        let gone_keys: Vec<i64> = gone.iter().filter_map(|row| if let Val::Int(v) = &row[pk] { Some(*v) } else { None }).collect();
+                        // restrict / no action first
+                        for t in self.tables.iter().skip(1) {
+                            for (ci, c) in t.cols.iter().enumerate() {
+                                if matches!(c.fk, Some(FkAction::NoAction) | Some(FkAction::Restrict)) && t.rows.iter().any(|row| matches!(&row[ci], Val::Int(v) if gone_keys.contains(v))) {
+                                    fk_err = true;
+                                    r.tags.push("fk_parent_delete_restricted");
+                                }
+                            }
+                        }
+                        if !fk_err {
+                            for (tj, t) in self.tables.iter().enumerate().skip(1) {
+                                for (ci, c) in t.cols.iter().enumerate() {
+                                    if c.fk == Some(FkAction::Cascade) {
+                                        let before = r.after[tj].rows.len();
+                                        r.after[tj].rows.retain(|row| !matches!(&row[ci], Val::Int(v) if gone_keys.contains(v)));
+                                        if r.after[tj].rows.len() != before {
+                                            r.tags.push("fk_parent_delete_cascades");
+                                        }
+                                    }
+                                }
+                            }
+                        }
+                    }
+                }
+                if fk_err {
+                    r.after = self.tables.clone();
+                    r.expect = Expect::Err("fk_restrict");
+                    return Some(r);
+                }
                 if *returning && !gone.is_empty() {
                     if gone.iter().any(|row| row.iter().any(is_long)) {
                         r.tags.push("returning_long_value");
@@ -732,6 +865,9 @@ impl Model {
                     return None;
                 }
                 let tab = &self.tables[ti];
+                if self.has_fk() {
+                    return None;
+                }
                 if tab.ever_had_rows {
                     r.tags.push("truncate_table_with_rows");
                 }
@@ -859,7 +995,7 @@ impl Model {
                 }
                 self.name_seq += 1;
                 let name = format!("n{}", self.name_seq);
-                let col = ColSpec { name: name.clone(), ty: *ty, pk: false, unique: false, not_null: false, auto_inc: false, default: *default };
+                let col = ColSpec { name: name.clone(), ty: *ty, pk: false, unique: false, not_null: false, auto_inc: false, default: *default, check: None, fk: None };
                 r.sql = format!("ALTER TABLE {} ADD COLUMN {} {}{}", tab.name, name, ty.sql(), match default {
                     Some(d) => format!(" DEFAULT {}", default_val(*ty, *d, neg_ok()).sql()),
                     None => String::new(),
@@ -892,7 +1028,7 @@ impl Model {
                 let ci = *c as usize % tab.cols.len();
                 let col = &tab.cols[ci];
                 // dropping key or indexed columns is outside the generated subset
-                if col.pk || col.unique || col.auto_inc || tab.indexes.iter().any(|ix| ix.cols.iter().any(|x| *x as usize % tab.cols.len() == ci)) {
+                if col.fk.is_some() || col.check.is_some() || col.pk || col.unique || col.auto_inc || tab.indexes.iter().any(|ix| ix.cols.iter().any(|x| *x as usize % tab.cols.len() == ci)) {
                     return None;
                 }
                 if tab.ever_had_rows {
@@ -921,6 +1057,9 @@ impl Model {
                 let ti = self.table_index(*t)?;
                 let tab = &self.tables[ti];
                 let ci = *c as usize % tab.cols.len();
+                if tab.cols[ci].fk.is_some() || tab.cols[ci].check.is_some() || (ti == 0 && tab.cols[ci].pk && self.has_fk()) {
+                    return None;
+                }
                 self.name_seq += 1;
                 let new = format!("r{}", self.name_seq);
                 r.sql = format!("ALTER TABLE {} RENAME COLUMN {} TO {}", tab.name, tab.cols[ci].name, new);
@@ -949,7 +1088,7 @@ impl Model {
                 Some(r)
             }
             Op::DropTable { t } => {
-                if self.in_txn() || self.tables.len() <= 1 {
+                if self.in_txn() || self.tables.len() <= 1 || self.has_fk() {
                     return None;
                 }
                 let ti = self.table_index(*t)?;
